@@ -29,6 +29,24 @@ fn describe(r: &Outcome<Res>) -> String {
     }
 }
 
+thread_local! {
+    /// a sample of executed events with the description of their results, re-executed later in reverse order
+    static REMEMBERED: std::cell::RefCell<Vec<(Ev, String, String)>> = const { std::cell::RefCell::new(Vec::new()) };
+}
+
+/// Hidden state monitor: an operation must give the same result whatever was computed before it (caches,
+/// memo tables, scratch buffers).  Every 16th event is remembered; `replay_remembered` runs them again, last first.
+fn replay_remembered(ctx: &mut Ctx) {
+    let list: Vec<(Ev, String, String)> = REMEMBERED.with(|r| std::mem::take(&mut *r.borrow_mut()));
+    for (ev, s0, d0) in list.iter().rev() {
+        let (s1, d1) = with_static!(ev.n, S => (describe(&guard(|| run_op::<S>(ev))), describe(&guard(|| run_op::<Lut>(ev)))));
+        ctx.cell_only("history-independent");
+        ctx.check("history-independent", *s0 == s1 && *d0 == d1, ev, &ev.op.clone(), || {
+            format!("{} on N={} gives a different result when executed again later: LutN {} -> {} ; Lut {} -> {}", ev.op, ev.n, s0, s1, d0, d1)
+        });
+    }
+}
+
 fn exec_diff<S: Tbl>(ctx: &mut Ctx, ev: &Ev) {
     let n = ev.n;
     let ma = Model::from_blocks(n, &ev.tabs[0]);
@@ -42,6 +60,14 @@ fn exec_diff<S: Tbl>(ctx: &mut Ctx, ev: &Ev) {
     };
     if rs.is_panic() && rd.is_panic() {
         ctx.bump("both-panicked", 1);
+    }
+    if ctx.evaluations % 16 == 0 && !matches!(ev.op.as_str(), "npn_canon" | "p_canon") {
+        REMEMBERED.with(|r| {
+            let mut r = r.borrow_mut();
+            if r.len() < 4000 {
+                r.push((ev.clone(), describe(&rs), describe(&rd)));
+            }
+        });
     }
     ctx.check("static-equals-dynamic", same, ev, &ev.op.clone(), || {
         format!("{} on N={} differs: LutN -> {} ; Lut -> {}", ev.op, n, describe(&rs), describe(&rd))
@@ -219,6 +245,7 @@ fn main() {
                     ctx.exhaustive.insert(format!("every operation on all pairs of functions, N={}", n), true);
                 }
                 exec(ctx, &Ev::new("random", "random", n));
+                replay_remembered(ctx);
             }
             "conv" => {
                 let reps = if thorough { 400 } else { 30 };
@@ -305,5 +332,6 @@ fn main() {
     for n in 3..=6 {
         required.push(format!("conv-int|N={}", n));
     }
+    required.push("history-independent".into());
     cli.finish(&ctx, &required, RULE);
 }
